@@ -167,11 +167,14 @@ fn run(ctx: &mut Ctx) {
                 continue;
             }
             for n in (t as u64)..=5 {
+                if quick && n != t as u64 && n != 5 {
+                    continue;
+                }
                 let all = placements(t, n);
-                let chosen: Vec<Vec<u64>> = if !quick || all.len() <= 4 {
+                let chosen: Vec<Vec<u64>> = if !quick || all.len() <= 2 {
                     all
                 } else {
-                    (0..3).map(|_| random_placement(&mut rng, t, n)).collect()
+                    (0..2).map(|_| random_placement(&mut rng, t, n)).collect()
                 };
                 let reps = if quick || np == 0 { 1 } else { 2 };
                 for qs in chosen {
@@ -241,7 +244,7 @@ fn run(ctx: &mut Ctx) {
     prog_case(ctx, vec![Instruction::Gate(raw("X", vec![], &[0], vec![])), Instruction::Halt()], 1);
     prog_case(ctx, vec![Instruction::Gate(raw("X", vec![], &[0], vec![])), Instruction::Nop()], 1);
     prog_case(ctx, vec![Instruction::Gate(raw("FOO", vec![], &[0], vec![]))], 1);
-    for _ in 0..(if quick { 400 } else { 8000 }) {
+    for _ in 0..(if quick { 250 } else { 8000 }) {
         let n = if rng.chance(1, 5) { 5 } else { 1 + rng.below(4) };
         let len = rng.below(7);
         let mut instrs = Vec::new();
